@@ -1,5 +1,6 @@
 mod alloc;
 mod api;
+mod apibuild;
 mod c01;
 mod c02;
 mod c04;
